@@ -20,11 +20,8 @@ QUIRKS = ['weekly-first-period-starts-at-dtstart-day', 'byday-plain-and-nth-inte
 
 
 def valid_shape(freq, sh):
-    v = sh.get('byweekday')
-    if v is not None:
-        big = any((not isinstance(x, int)) and x[1] is not None and abs(x[1]) > 5 for x in rules.wd_list(v))
-        if big and (freq == rrule_ref.MONTHLY or (freq == rrule_ref.YEARLY and 'bymonth' in sh)):
-            return False      # outside RFC range for month scope (DESIGN §4)
+    # (an ordinal such as 53TU in month scope is grammatical - RFC 5545 ordwk is 1..53 - and simply never matches:
+    # such rules are judged like any other: ValueError or nothing)
     return True
 
 
